@@ -151,5 +151,26 @@ PROPS["C03"] = {
     "assumptions": ["names contain no NUL byte"],
 }
 
+PROPS["C18"] = {
+    "variants": ["v1"],
+    "lean": ["Gengo.Props.C18"],
+    "level": "proof",
+    "level_text": "Kernel-checked: the accumulating loops of verifyRules/verifyInverseRules (forbidden map, mismatch list, break on allow) "
+                  "decide exactly 'first matching rule allows and does not forbid' for any selector matcher, for rules and for inverse rules "
+                  "with the direct/transitive split; the verdict is invariant under permutation of the import set; Warshall's triple loop over "
+                  "Go maps computes exactly reachability by >= 1 import edge for every iteration order of the three key sets, and the reported "
+                  "importer lists are sorted. The real tool entry (generators.Packages + ExecutePackage on generated directory trees with "
+                  ".import-restrictions files) and Context.TransitiveIncomingImports are compared with the model and with an independent "
+                  "BFS/first-match oracle.",
+    "level_note": "Trusted: Lean kernel, the model (validated by correspondence), regexp (parameter of the theorems; the driver's literal "
+                  "matcher is checked against package regexp on every selector x path it is used on), YAML/JSON decoding of rule files, "
+                  "the directory walk of recursiveRead as modelled (prefix chain up to the src root).",
+    "rule": "digraphs on 2..6 packages over nested paths (cycles allowed) x restriction files at up to 6 directories (stacked along the "
+            "path) with 0..2 rules and 0..2 inverse rules each over 9 selectors and 7 prefixes; every package of each world is judged by "
+            "the real tool 7 times; thorough adds all 4096 digraphs on 4 nodes (closure) with a sampled rule stack on every 16th. "
+            "Non-trivial = at least 2 edges and a rule file; distinct = distinct world.",
+    "assumptions": ["selectors are literals with optional ^/$ anchors, '' or '.*'"],
+}
+
 # properties not claimed, with the reason (kept current by hand)
 NOT_APPLICABLE = {}
